@@ -439,9 +439,15 @@ def gen_case(sub, routines, scn_id, connected=False, nmax=12, invalid_frac=0.0):
         params['B'] = enc(B)
     elif routine != 'randomizer_bin_und':
         params['itr'] = rnd.choice((0, 1, 1, 2, 3, 5, 0.5))
+    if meta.get('wkind') == 'float' and routine in LAT and rnd.random() < 0.3:
+        W = W ** 3  # heavy-tailed weights (a few strong connections, many weak ones): one mis-judged swap then moves the lattice cost visibly
+        meta['skewed'] = True
     if meta.get('wkind') == 'float' and routine != 'randomizer_bin_und' and rnd.random() < 0.12:
         W = W * rnd.choice((1e-9, 1e-6, 1e6))  # units: weights are moved, never computed, so every fact stays exact
         meta['scaled'] = True
+    elif meta.get('wkind') == 'float' and routine != 'randomizer_bin_und' and rnd.random() < 0.25:
+        W = W / W.max()  # pre-normalised weights: the largest is exactly 1.0 (and the smallest entry 0), as in a binary network
+        meta['normalised'] = True
     r = rnd.random()
     if r < 0.12 and meta.get('wkind') in ('bin', 'int'):
         W = W.astype(np.int64)
